@@ -596,3 +596,17 @@ func (p *Prog) resolveUp(v ssa.Value) ssa.Value {
 	}
 	return v
 }
+
+// fieldBehind: the struct field v was read from, looking through interface
+// conversions, local variables holding the value and function literals which
+// captured it.
+func fieldBehind(v ssa.Value) (*types.Var, ssa.Value) {
+	for k := 0; k < 8; k++ {
+		n := resolveFree(resolveCell(stripConv(v, false)))
+		if n == v {
+			break
+		}
+		v = n
+	}
+	return loadedField(v)
+}
